@@ -72,13 +72,14 @@ Definition increments (p : props) : upd :=
   | None => if p_list_item p then [("list-item"%string, 1)] else []
   end.
 
+(* reset loop, then the increment loop, then the counter-set loop *)
 Definition update_counters (st : state) (p : props) : option state :=
   match fold_opt do_reset (p_reset p) st with
   | None => None
   | Some st1 =>
-    match fold_opt (fun s nv => do_modify (fun _ => snd nv) s (fst nv)) (p_set p) st1 with
+    match fold_opt (fun s nv => do_modify (fun x => x + snd nv) s (fst nv)) (increments p) st1 with
     | None => None
-    | Some st2 => fold_opt (fun s nv => do_modify (fun x => x + snd nv) s (fst nv)) (increments p) st2
+    | Some st2 => fold_opt (fun s nv => do_modify (fun _ => snd nv) s (fst nv)) (p_set p) st2
     end
   end.
 
